@@ -154,7 +154,7 @@ def scripted_cases():
 
 
 def run(ctx: Ctx) -> Outcome:
-    n = ctx.n(500, 6000)
+    n = ctx.n(800, 8000)
     out, results = engcheck.run_programs(ctx, n, dict(GEN, n_stmts=ctx.n(10, 18)), "oracle", nontrivial)
     out.rule = ("random programs with failing statements (non-view op with incompatible shapes, view op with bad index / "
                 "bad reshape, in-place update with bad shape or index on a base or on a view, bad out=) inserted at random "
